@@ -1,7 +1,7 @@
 """C02 Factors reproduce the permuted matrix; pivoting bounds hold  —  pivot rule, perm_r discipline, inverse permutations, R9 + twins."""
 from ..facts import Program
 from ..run import Check, AnalysisBroken
-from ..rules import pivot, factor_tail, r9_sibling, r7_perm, r11_kinds
+from ..rules import pivot, factor_tail, r9_sibling, r7_perm, r11_kinds, kernels
 from . import _drv
 
 R9_UNITS = ['gstrf.c', 'pivotL.c', 'panel_dfs.c', 'column_dfs.c', 'snode_dfs.c', 'pruneL.c', 'column_bmod.c', 'panel_bmod.c', 'snode_bmod.c', 'copy_to_ucol.c',
@@ -29,6 +29,7 @@ def run(tier):
         chk.clause('C02.D1', 'pivot rule of ?pivotL')
         chk.clause('C02.D2', 'perm_r discipline and inverse permutations in ?gstrf')
         r11_kinds.run(chk, 'C02.kinds', prog, cfgname, floor=1900)
+        kernels.run_factor(chk, 'C02.kern', prog, cfgname)
         n1 = n2 = 0
         for p in _drv.PRECS:
             n1 += pivot.run(chk, 'C02.D1', prog, p, cfgname)
